@@ -65,6 +65,7 @@ theorem readonly_no_mutation (cfg : Cfg) (h : cfg.readonly = true) (s : State) (
   split
   · rfl
   · rename_i w _
+    rw [finish_fst]
     cases r.op <;> simp only [handle] <;> first | rfl | (simp only [h]; ro_auto cfg h) | ro_auto cfg h
 
 /-- the operations that only read -/
@@ -91,6 +92,9 @@ theorem readonly_reads_unaffected (cfg : Cfg) (s : State) (c : Caller) (now : In
   cases resolve cfg s c with
   | none => rfl
   | some w =>
+    simp only
+    rw [show ∀ x, finish { cfg with readonly := true } x = finish cfg x from fun _ => rfl]
+    congr 1
     cases op <;> simp [Op.isRead] at hr <;>
       simp only [handle, withLockedVersion, verifyAccess_readonly_read cfg true _ w .read rfl,
         verifyAccess_readonly_read cfg true _ w .readAcp rfl]
@@ -109,6 +113,7 @@ theorem readonly_refuses_mutations (cfg : Cfg) (h : cfg.readonly = true) (s : St
   cases resolve cfg s c with
   | none => exact errR_code_ne _
   | some w =>
+    simp only [finish_code]
     cases op <;> simp [Op.isRead] at hw <;> simp only [handle]
     case createBucket b acl own lock validName =>
       simp only [h]; split <;> simp [errR_code_ne]
